@@ -249,7 +249,10 @@ class PydanticField:
 
         # Return Standardised Description String
         description = self.info.description if self.info.description is not None else ""
-        return f"{description}{default}"
+
+        # argparse expands help strings with the %-operator: texts coming from descriptions,
+        # defaults, config files or environment variables are no format strings
+        return f"{description}{default}".replace("%", "%%")
 
     def metavar(self) -> str | None:
         """Generate the metavar name for the field.
